@@ -43,6 +43,7 @@ DEFAULT_OPTS = {
     "retype_to_dir": True,
     "rename_full_dirs": True,
     "renames": True,
+    "swap_full_dirs": True,
     "neg_half_tz": True,
     "inside_links": False,  # symlink targets never leave the directory of the link
     "swap": True,
@@ -317,6 +318,8 @@ def gen_spec(rng, mh, rid, parents, ts, opts, nchanges=None, merge_tree=None):
                 continue
             a, b = rng.sample(cand, 2)
             if inside(a, b) or inside(b, a) or any(inside(a, t) or inside(b, t) for t in touched):
+                continue
+            if not o["swap_full_dirs"] and any(q not in (a, b) and (inside(a, q) or inside(b, q)) for q in tree):
                 continue
             do(["swap", a, b])
             touched.update((a, b))
